@@ -37,4 +37,23 @@ theorem tie_do : doShape =
 theorem tie_newSingleFlight : newSingleFlightShape = ["return &flightGroup{ calls: make(map[string]*call), }"] := by
   decide
 
+/-! ### LockedCalls -/
+open LC in
+/-- `lockedGroup.Do`: lock; somebody registered for the key → unlock, wait, **retry from the top**; else makeCall
+(still holding the mutex). -/
+theorem tie_lockedDo : lockedDoShape =
+    ["label begin", stmt .b0, stmt .b1, "if ok {", stmt .b2, stmt .b3, "goto begin", "}",
+     "call lg.makeCall(key, fn)", stmt .e4] := by decide
+
+open LC in
+/-- `lockedGroup.makeCall`: Add(1), register, unlock, run the caller's own fn; deferred: lock, **delete, unlock,
+then Done**. -/
+theorem tie_lockedMakeCall : lockedMakeCallShape =
+    [stmt .c0, stmt .c1, stmt .c2, stmt .c3,
+     "defer{", "func{", stmt .e0, stmt .e1, stmt .e2, stmt .e3, "}", "call func", "}",
+     stmt .f0, stmt .e4] := by decide
+
+theorem tie_newLockedCalls : newLockedCallsShape = ["return &lockedGroup{ m: make(map[string]*sync.WaitGroup), }"] := by
+  decide
+
 end GoZero.C07.Tie
